@@ -26,6 +26,7 @@ type Scenario struct {
 	Deepen         int // thorough tier: keep raising the bound up to this value while the deepening slice lasts
 	MaxExecs       int // cap on executions (0 = default)
 	MaxSteps       int
+	UnlockPoints   bool                                                         // scheduling points after every Unlock too (finer granularity, 1.5-3x the tree)
 	Race           bool                                                         // happens-before race detection on goat's field/map accesses (C15)
 	ExpectOutcomes []string                                                     // engine self-test: the exact set of observation logs over all executions
 	ExpectRace     string                                                       // engine self-test: "race" = some execution must report a race, "norace" = none may
@@ -120,7 +121,7 @@ type explorer struct {
 
 func cfgOf(sc *Scenario, prefix []int, verbose bool) vsched.Config {
 	return vsched.Config{Prefix: prefix, MaxSteps: sc.MaxSteps, Verbose: verbose, Horizon: sc.Horizon,
-		PreemptCost: sc.PreemptCost, SelectCost: sc.SelectCost, Race: sc.Race}
+		PreemptCost: sc.PreemptCost, SelectCost: sc.SelectCost, Race: sc.Race, UnlockPoints: sc.UnlockPoints}
 }
 
 // Explore runs the scenario under every schedule within its bound.
